@@ -119,6 +119,8 @@ class Registry:
 
     def by_name(self, name: str, prefer_file: Optional[str] = None) -> Optional[Contract]:
         cands = [c for c in self.contracts.values() if c.qualname == name]
+        if not cands:
+            cands = [c for c in self.contracts.values() if c.qualname.split(".")[-1].split("@")[0] == name]
         if prefer_file:
             same = [c for c in cands if c.file == prefer_file]
             if same:
